@@ -57,6 +57,22 @@ Lemma gen_host_conn_calls_deployed :
   list_eqb String.eqb gen_host_conn_calls deployed_host_conn_calls = true.
 Proof. vm_compute. reflexivity. Qed.
 
+(** Lock skeleton: every access to connMailOffice.m, sessionID.id and
+    connections.m / connections.closed lies in a method of its type, after
+    `mu.Lock()` immediately followed by `defer mu.Unlock()`, in a body without
+    go statements, function literals or further Lock/Unlock calls - so each
+    of these methods is one atomic step (Sni/MailboxConc.v), and they are
+    exactly the operations of the model. *)
+Definition expected_locked_methods : list string :=
+  [ "connMailOffice.deliver"; "connMailOffice.newBox"; "connMailOffice.remove";
+    "connections.add"; "connections.get"; "connections.remove"; "connections.shutdown";
+    "sessionID.next" ].
+
+Lemma gen_lock_skeleton :
+  gen_lock_violations = [] /\
+  list_eqb String.eqb gen_locked_methods expected_locked_methods = true.
+Proof. split; reflexivity. Qed.
+
 (** The bodies the models of Sni/Mailbox.v and Sni/Route.v were written against. *)
 Definition frozen_route_src : list (string * string) :=
   [ ("Server.endpoint", "{ s.mu.Lock() defer s.mu.Unlock() c, ok := s.endpoints[name] if !ok { return nil, errcode.NotFoundf(""not found"") } return c, nil }");
@@ -102,10 +118,26 @@ Definition gen_route_src : list (string * string) :=
     ("newSideConn", gen_route_src_newSideConn);
     ("sideConn.RemoteAddr", gen_route_src_sideConn_RemoteAddr) ].
 
-(** names of the functions whose body differs from the frozen one *)
+(** Bodies that are accepted as well: reviewed variants under which the
+    models are unchanged.
+    - connMailBox.receive with a [gone] channel (the control connection is
+      lost): one more way for a receive to return without a connection; a
+      connection it returns still comes out of its own box's channel.
+    - endpointClient.Dial drawing the key under its own mutex before
+      ids.next(): same (id, key) pair, the key stays an arbitrary value. *)
+Definition accepted_variants : list (string * string) :=
+  [ ("connMailBox.receive", "{ select { case <-ctx.Done(): return nil, ctx.Err() case <-b.closed: return nil, errcode.TimeOutf(""closed"") case <-gone: select { case conn := <-b.ch: return conn, nil default: } return nil, io.ErrUnexpectedEOF case conn := <-b.ch: return conn, nil } }");
+    ("endpointClient.Dial", "{ if !c.options.Siding { req := &dialRequest{} resp := new(dialResponse) if err := c.tr.call(ctx, msgDial, req, resp); err != nil { return nil, err } if resp.err != nil { return nil, resp.err } return newTunnel(c.tr, resp.session), nil } token, err := c.token() if err != nil { return nil, errcode.Annotate(err, ""get side token"") } c.randMu.Lock() key := c.rand.Uint64() c.randMu.Unlock() k := &sessionKey{ ID: c.ids.next(), Key: key, } box := c.office.newBox(k) defer box.cleanUp() resp := new(dialResponse) if c.options.DialWithAddr { req := &dialSide2Request{ session: k.ID, key: k.Key, token: token, tcpAddr: asAddr, } if err := c.tr.call(ctx, msgDialSide2, req, resp); err != nil { return nil, err } } else { req := &dialSideRequest{ session: k.ID, key: k.Key, token: token, } if err := c.tr.call(ctx, msgDialSide, req, resp); err != nil { return nil, err } } if resp.err != nil { return nil, resp.err } return box.receive(ctx, c.tr.serveDone) }") ].
+
+Definition variant_ok (n x : string) : bool :=
+  existsb (fun v => String.eqb (fst v) n && String.eqb (snd v) x) accepted_variants.
+
+(** names of the functions whose body differs from the frozen one and from
+    every accepted variant *)
 Fixpoint src_diff (a b : list (string * string)) : list string :=
   match a, b with
-  | (n, x) :: a', (_, y) :: b' => if String.eqb x y then src_diff a' b' else n :: src_diff a' b'
+  | (n, x) :: a', (_, y) :: b' =>
+      if String.eqb x y || variant_ok n x then src_diff a' b' else n :: src_diff a' b'
   | [], [] => []
   | _, _ => ["(lists differ in length)"]
   end.
